@@ -69,7 +69,8 @@ class RemoteLogHandler(mlzlog.Handler):
             return
         # a level without SECoP name (e.g. critical) is sent under its standard name
         levelname = LEVEL_NAMES.get(record.levelno) or record.levelname.lower()
-        for conn, lev in subscriptions.items():
+        # iterate over a snapshot: connections change their subscriptions in other threads
+        for conn, lev in list(subscriptions.items()):
             if record.levelno >= lev:
                 self.send_log(  # pylint: disable=not-callable
                     conn, modname, levelname,
